@@ -141,6 +141,7 @@ struct Run<'a> {
     bridge_dups: bool,
     races: bool,
     deferred_drop: bool,
+    legacy_dropped: bool,
 }
 
 enum StepEnd {
@@ -305,6 +306,10 @@ impl Run<'_> {
                         cov.bump("skipped_action");
                         continue;
                     }
+                    if self.cands.iter().any(|m| m.g.reqs.get(&key).is_some_and(|r| r.legacy)) {
+                        self.legacy_dropped = true;
+                        cov.bump("fault:drop_legacy_request");
+                    }
                     if self.host.drop_req(key) {
                         self.faults += 1;
                         cov.bump("fault:drop");
@@ -455,6 +460,10 @@ impl Run<'_> {
                     cov.tolerate(viol(id, "stuck_task_never_evicted:then_stream", format!("step {si} on {sel:?}: {} executor tasks although every request and stream of the stuck chain is gone (a stream chain using then_stream keeps a clone of its own waker alive)", st.executor_tasks)))?;
                     return Ok(StepEnd::Stop);
                 }
+                if !self.cands.iter().any(fits) && self.legacy_dropped {
+                    cov.tolerate(viol(id, "legacy_task_survives_dropped_request", format!("step {si} on {sel:?}: {} executor tasks; a task of the old capability API whose request the shell dropped is never woken and stays (with everything it captured) until the core is dropped", st.executor_tasks)))?;
+                    return Ok(StepEnd::Stop);
+                }
                 if !self.cands.iter().any(fits) {
                     let m = &self.cands[0];
                     cov.tolerate(viol(id, "occupancy:executor_tasks", format!("step {si}: {} executor tasks with only {} live commands and {} live legacy tasks in the reference", st.executor_tasks, m.live_command_roots(), m.legacy.len())))?;
@@ -503,6 +512,7 @@ pub fn run_scenario_on(scn: &Scenario, sel: HostSel, ck: &Checks, cov: &mut Cov)
     let kind = if sel.is_direct() { HostKind::Direct } else { HostKind::Core };
     let mut m0 = Model::new(kind);
     m0.g.legacy_supported = sel.supports_legacy();
+    m0.g.legacy_drops = scn.legacy_drops;
     let tokens0 = super::ops::live_tokens();
     let ctrl = if scn.buggify { Some(install_buggify(scn.hash_seed)) } else { None };
     let mut run = Run {
@@ -526,6 +536,7 @@ pub fn run_scenario_on(scn: &Scenario, sel: HostSel, ck: &Checks, cov: &mut Cov)
         bridge_dups: scn.bridge_dups,
         races: false,
         deferred_drop: false,
+        legacy_dropped: false,
     };
 
     let mut stopped = false;
@@ -587,7 +598,9 @@ pub fn run_scenario_on(scn: &Scenario, sel: HostSel, ck: &Checks, cov: &mut Cov)
                         && m.g.tokens == toks
                         && (!m.all_done() || (st.executor_tasks == 0 && st.command_tasks == 0))
                 });
-                if !accounted {
+                if !accounted && run.legacy_dropped {
+                    cov.tolerate(viol(id, "legacy_task_survives_dropped_request", format!("after the drain phase the host holds {st:?} and {toks} tokens; a task of the old capability API whose request the shell dropped is never woken and stays until the core is dropped")))?;
+                } else if !accounted {
                     let m = &run.cands[0];
                     let clause = if run.cands.iter().any(|m| m.g.tokens == toks) { "leak:tasks_after_drain" } else { "leak:tokens_after_drain" };
                     cov.tolerate(viol(id, clause, format!("after the drain phase the host holds {st:?} and {toks} drop-counted tokens; the reference has {} live commands, {} live legacy tasks, {} tokens", m.live_command_roots(), m.legacy.len(), m.g.tokens)))?;
